@@ -241,6 +241,12 @@ pub fn raw_meta() -> impl Strategy<Value = Vec<u8>> {
     ]
 }
 
+/// Raw metadata big enough for an index record of more than 2 MiB (described, not drawn byte
+/// by byte, so that generation and shrinking stay cheap).
+pub fn huge_raw_meta(n: usize, s: u8) -> Vec<u8> {
+    (0..n).map(|i| (i as u8).wrapping_mul(31).wrapping_add(s)).collect()
+}
+
 pub fn chunks() -> impl Strategy<Value = Vec<usize>> {
     prop_oneof![
         3 => Just(Vec::new()),
